@@ -445,6 +445,14 @@ def c10(tier: str) -> int:
                 'Alloc; lookup; Drop; Alloc; lookup counterexample to Transparent'}
     if 'Transparent' not in res2.violated:
         raise tlc.MachineryError('the cache model no longer predicts the id-reuse defect: model and property out of step')
+    # the registry of global handlers: a cache that ignores registrations, and one that is emptied by them, are both
+    # refuted by TLC (the second by a build in flight that stores afterwards); the design checked above keys on it
+    for cfg, what in (('MC_Cache_regfound.cfg', 'registrations ignored by the cache (the code as found)'),
+                      ('MC_Cache_regclear.cfg', 'cache emptied at every registration')):
+        r3 = engine.model_check('MC_Cache', cfg, facts=False)
+        rep.extra.setdefault('models_of_other_registry_designs', {})[cfg] = {'design': what, 'violates': r3.violated, 'distinct_states': r3.distinct}
+        if 'Transparent' not in r3.violated:
+            raise tlc.MachineryError(f'{cfg}: the cache model no longer refutes this design: model and property out of step')
     n = 150 if tier == 'quick' else 3000
     stats = {'allocs': 0, 'drops': 0, 'lookups': 0, 'drift': 0, 'id_reused_for_other_type': 0}
     behaviours = cache.simulate('MC_Cache_sim.cfg', n, 40, 1 + engine.seed())
@@ -472,7 +480,8 @@ def c10(tier: str) -> int:
     rep.assumptions += ['CPython address reuse cannot be forced: the replay records real ids (id_reused_for_other_type says how '
                         'often an address came back for another type)',
                         'thread schedules are enforced at the four modelled steps; finer interleavings are excluded by the GIL',
-                        'handlers are registered/configured before the first conversion']
+                        'one registered global handler (registered at most once per behaviour; taken back between behaviours through the '
+                        'module-level list, there being no public way)']
     return rep.finish()
 
 
